@@ -65,6 +65,9 @@ def next_slab(rnd, slabs, base):
     else:
         h, zc = hi, ci
     h = min(max(h, 0.05), 1500.0)
+    # (mesh Booleans run in single precision: a slab a million units away from the shapes it
+    # meets loses decimetre-wide parts to rounding, which is not what this family is about)
+    zc = max(base - 3000.0, min(base + 3000.0, zc))
     return zc, h, f"{rel}@{k}"
 
 
